@@ -114,7 +114,7 @@ impl Asset {
         broadcast use axiom_to_string_string;
 //%end
 //%fn packages/haloswap/src/asset.rs | impl Asset | assert_sent_native_token_balance
-//%%rewrite #1 /message_info\.funds\.iter\(\)\.find\(\|x\| ((?s:.*?))\) \{/ => vfind(&message_info.funds, |x: &Coin| -> (b: bool) ensures b == (x.denom@ == denom@) { \1 }) { ## R4: iterator find -> verified helper vfind; closure annotated with its own (verified) ensures
+//%%rewrite #1 /message_info\s*\.funds\s*\.iter\(\)\s*\.find\(\|x\| ((?s:.*?))\)\s*\{/ => vfind(&message_info.funds, |x: &Coin| -> (b: bool) ensures b == (x.denom@ == denom@) { \1 }) { ## R4: iterator find -> verified helper vfind; closure annotated with its own (verified) ensures
 //%%sig
     ensures
         /*[C09,C02 sent.token-ok]*/ self.info is Token ==> r is Ok,
